@@ -16,7 +16,7 @@ func XMultiSameMethod() *spec.Spec {
 
 // Extended returns the extended families (everything beyond the documented core combinations).
 func Extended(thorough bool) []*spec.Spec {
-	out := []*spec.Spec{XMultiSameMethod(), XCrossFile(), XTwoServiceFiles()}
+	out := []*spec.Spec{XMultiSameMethod(), XCrossFile(), XTwoServiceFiles(), XTimestampCards(), XTimestampCardsFmt(), XEmptyOrders(), XSharedMethodHeader()}
 	out = append(out, CtxSpecs()...)
 	out = append(out, RouteSpecs(thorough)...)
 	out = append(out, BindSpecs(thorough)...)
@@ -66,14 +66,57 @@ func XTwoServiceFiles() *spec.Spec {
 	return withCell(s, "ext/unit=two_service_files", "extended", "valid", "genonly", "multifile")
 }
 
+// XTimestampCards: timestamps in repeated / map position (default format).
+func XTimestampCards() *spec.Spec {
+	f := &spec.File{Messages: []*spec.Message{
+		spec.M("TsCards", spec.Ts("at"), spec.Ts("list").Rep(), spec.Ts("by_key").Map(), spec.F("name", "string")),
+		spec.M("TsMixed", spec.Ts("at").TsF(spec.TsUnixMs), spec.Ts("list").Rep(), spec.Ts("by_key").Map()),
+	}, Services: []*spec.Service{EchoService("TsCardService", "TsCards", "TsMixed")}}
+	return withCell(spec.One("x_ts_cards", f), "ext/unit=timestamp_cardinalities", "extended", "valid", "codec")
+}
+
+// XTimestampCardsFmt: timestamp_format on repeated Timestamp fields.
+func XTimestampCardsFmt() *spec.Spec {
+	f := &spec.File{Messages: []*spec.Message{
+		spec.M("TsFmtList", spec.Ts("secs_list").Rep().TsF(spec.TsUnixSec), spec.Ts("dates").Rep().TsF(spec.TsDate), spec.F("name", "string")),
+	}, Services: []*spec.Service{EchoService("TsFmtListService", "TsFmtList")}}
+	return withCell(spec.One("x_ts_cards_fmt", f), "ext/unit=timestamp_format_repeated", "extended", "valid", "codec")
+}
+
+// XEmptyOrders: empty_behavior values in every declaration order.
+func XEmptyOrders() *spec.Spec {
+	vals := []struct {
+		n string
+		v int32
+	}{{"preserve", spec.EmptyPreserve}, {"null", spec.EmptyNull}, {"omit", spec.EmptyOmit}}
+	var msgs []*spec.Message
+	var names []string
+	msgs = append(msgs, spec.M("Meta", spec.F("k", "string")))
+	perms := [][]int{{0, 1, 2}, {0, 2, 1}, {1, 0, 2}, {1, 2, 0}, {2, 0, 1}, {2, 1, 0}, {1, 2}, {2, 1}, {1, 0}, {0, 1}, {1}, {2}, {0}}
+	for _, p := range perms {
+		name := "Eb"
+		m := spec.M("", spec.F("id", "string"))
+		for _, i := range p {
+			name += string(vals[i].n[0]-32) + vals[i].n[1:]
+			m.Fields = append(m.Fields, spec.Msg("m_"+vals[i].n, "Meta").Empty(vals[i].v))
+		}
+		m.Name = name
+		msgs = append(msgs, m)
+		names = append(names, name)
+	}
+	f := &spec.File{Messages: msgs, Services: []*spec.Service{EchoService("EmptyOrderService", names...)}}
+	return withCell(spec.One("x_empty_orders", f), "ext/unit=empty_behavior_orders", "extended", "valid", "codec")
+}
+
 // OASShapes: shapes that stress component naming and reachability in the OpenAPI generator.
 func OASShapes() []*spec.Spec {
 	var out []*spec.Spec
 	{
 		// same-named nested types in two parents
 		a := spec.M("Order", spec.F("id", "string"), spec.Msg("item", "Order.Item")).WithNested(spec.M("Item", spec.F("sku", "string")))
-		b := spec.M("Invoice", spec.F("id", "string"), spec.Msg("item", "Invoice.Item")).WithNested(spec.M("Item", spec.F("amount", "int64")))
-		f := &spec.File{Messages: []*spec.Message{a, b}, Services: []*spec.Service{EchoService("NestedService", "Order", "Invoice")}}
+		b := spec.M("Invoice", spec.F("id", "string"), spec.Msg("item", "Invoice.Item")).WithNested(spec.M("Item", spec.F("amount", "int64"), spec.Msg("facet", "Facet"), spec.Msg("tags", "Tag").Map()))
+		f := &spec.File{Messages: []*spec.Message{a, b, spec.M("Facet", spec.F("name", "string"), spec.Msg("deep", "Deeper")), spec.M("Deeper", spec.F("n", "int32")), spec.M("Tag", spec.F("label", "string"))},
+			Services: []*spec.Service{EchoService("NestedService", "Order", "Invoice")}}
 		out = append(out, withCell(spec.One("oas_same_nested", f), "oas/unit=same_named_nested", "extended", "valid", "genonly"))
 	}
 	{
@@ -98,4 +141,16 @@ func OASShapes() []*spec.Spec {
 		out = append(out, withCell(spec.One("oas_yamlish", f), "oas/unit=yaml_lookalike_strings", "extended", "valid", "genonly"))
 	}
 	return out
+}
+
+// XSharedMethodHeader: two RPCs declare the same method-level header; a third one declares none.
+func XSharedMethodHeader() *spec.Spec {
+	idem := &spec.Header{Name: "X-Idempotency-Key", Type: "string", Required: true}
+	f := &spec.File{Messages: []*spec.Message{spec.M("OrderReq", spec.F("name", "string")), spec.M("CancelReq", spec.F("order_id", "string"), spec.F("reason", "string")), spec.M("Out", spec.F("ok", "bool"))},
+		Services: []*spec.Service{spec.Svc("OrderService", "/api/v1",
+			spec.RPC("CreateOrder", "OrderReq", "Out", "POST", "/orders").H(idem),
+			spec.RPC("CancelOrder", "CancelReq", "Out", "POST", "/orders/{order_id}/cancel").H(idem),
+			spec.RPC("PingOrder", "OrderReq", "Out", "POST", "/orders/ping"),
+		).H(apiKey)}}
+	return withCell(spec.One("x_shared_method_header", f), "ext/unit=shared_method_header", "extended", "valid")
 }
